@@ -8,6 +8,7 @@ package main
 // the KvTyping contract.
 
 import (
+	"strings"
 	"encoding/json"
 	"fmt"
 	"regexp"
@@ -52,7 +53,9 @@ func typingStores() [][]KV {
 }
 
 func runTypingCase(id string, st *Stmt) typTrace {
+	renderMinParens = strings.HasSuffix(id, "#min") // the same statement written with as few parentheses as possible (`!!x`, `a - b - c`)
 	q := st.Text()
+	renderMinParens = false
 	tr := typTrace{ID: id, Q: q, Stmt: st, TypeErrs: []string{}, Panics: []string{}}
 	stores := typingStores()
 	first := true
@@ -128,6 +131,14 @@ func init() {
 				out.Finding(Finding{Prop: c.prop, Kind: "run-panic", CaseID: id, Query: tr.Q, Detail: p})
 			}
 			out.Trace("typing", tr)
+			tr2 := runTypingCase(id+"#min", tc.Stmt)
+			if tr2.Q != tr.Q {
+				out.Stats.Evaluations += tr2.Runs
+				for _, p := range tr2.Panics {
+					out.Finding(Finding{Prop: c.prop, Kind: "run-panic", CaseID: id, Query: tr2.Q, Detail: p})
+				}
+				out.Trace("typing", tr2)
+			}
 		})
 		if err != nil {
 			out.Infra = append(out.Infra, err.Error())
